@@ -325,9 +325,10 @@ func runC12(w *eng.W) {
 	}
 	// separators at every single position
 	bases := []string{}
-	for _, ip := range []string{"", "1", "12", "1234", "00", "10000000"} {
-		for _, fp := range []string{"<none>", "", "5", "05", "1234"} {
-			for _, ep := range []string{"", "e1", "e+12", "E-3", "e123"} {
+	// (digit groups of 8, 9, 16 and 17 digits: a scanner that takes digits in machine words has its edges there)
+	for _, ip := range []string{"", "1", "12", "1234", "00", "10000000", "100000000", "12345678901234567"} {
+		for _, fp := range []string{"<none>", "", "5", "05", "1234", "123456789", "12345678901234567"} {
+			for _, ep := range []string{"", "e1", "e+12", "E-3", "e123", "e000000012"} {
 				if ip == "" && (fp == "<none>" || fp == "") {
 					continue
 				}
